@@ -23,16 +23,18 @@ RULE = (
     "two padding values; per prefix the oracle tries every token of the alphabet and keeps those "
     "whose best reachable distance (row minimum of the Levenshtein table) does not rise. Hard OCD "
     "loss on the same batches with seed-valued logits, V=3, reductions none/sum/mean, optional class "
-    "weights. Rows are checked only for hypotheses with >=1 counted token (as the property states). "
+    "weights, logits also attached to the autograd graph and a 'confident' variant with exactly-zero step losses. "
+    "Rows are checked only for hypotheses with >=1 counted token (as the property states); with an eos the reduced "
+    "losses are judged on the sub-batch of those hypotheses, which still contains empty references (no target at any "
+    "prefix), and a non-finite reduced loss is a violation of its own. "
     "Distinct by construction; non-trivial = target set for some prefix has size != 1. Plus a larger instance "
     "(R,H,N) = (40,36,24) over 3 symbols + eos handed in as offset non-contiguous views, one module object reused "
     "across unrelated calls, module == functional on clones, arguments unchanged, targets against an integer DP."
 )
 ASSUMPTIONS = [
     "small-scope alphabet/lengths/cost menu as for C01",
-    "'mean' reduction of the loss is compared exactly only where all readings of 'averaged' coincide "
-    "(every step of every sequence has targets and all sequences have equal length); otherwise it must "
-    "lie between the smallest and largest per-step loss",
+    "'mean' reduction of the loss: 'averaged' admits three readings (per sequence over its prefixes with targets, then "
+    "over the batch; over all H*N entries; over all prefixes with targets) - the value must equal one of them",
     "zero-sized reference dimension not enumerated (length-0 references are covered through eos)",
 ]
 BUDGET_S = {"quick": 900, "thorough": 3000}
